@@ -105,6 +105,11 @@ func TestVerif_Admission(t *testing.T) {
 			c.Server.RateLimits.BurstSize = sc.Burst
 			c.Server.RateLimits.GlobalRequestsPerMinute = 0
 			c.Server.RateLimits.HealthRequestsPerMinute = 0
+			if sc.Behaviour == "drainwait" {
+				// the limiter's housekeeping runs many times during the scenario: a bucket it forgets too early
+				// comes back full
+				c.Server.RateLimits.CleanupInterval = 150 * time.Millisecond
+			}
 			c.Server.RequestLimits.MaxBodySize = int64(maxBody)
 			c.Translators.Anthropic.MaxMessageSize = int64(maxMsg)
 			c.Translators.Anthropic.PassthroughEnabled = false
@@ -214,7 +219,40 @@ func TestVerif_Admission(t *testing.T) {
 				record(id, ip, send, recv, st, len(body), "cl", "proxy")
 			}
 		}
+		// the same client on three different doors to the same backends: the proxy route, a provider route, the
+		// translated Anthropic route
+		mixShot := func(ip string, i int) {
+			route := []string{"proxy", "provider", "anthropic"}[i%3]
+			id := nextID()
+			if route == "anthropic" {
+				id += "anth"
+			}
+			tgt, hdrs, _ := verifRequestFor(route, id, "m1")
+			body := verifAdmBody(route, id, 120)
+			send := ms()
+			res := zzverif.Do(stk.addr, &zzverif.Req{Method: "POST", Target: tgt, LocalIP: ip, Headers: hdrs, Body: body, Timeout: 10 * time.Second})
+			recv := ms()
+			st := res.Status
+			if res.NoResp {
+				st = 0
+			}
+			record(id, ip, send, recv, st, len(body), "cl", "mix")
+		}
 		switch sc.Behaviour {
+		case "drainwait":
+			// use up the burst, stay silent across several housekeeping sweeps, come back
+			for round := 0; round < 2; round++ {
+				for i := 0; i < 2*(sc.Burst+1); i++ {
+					oneShot("127.0.0.1")
+				}
+				if round == 0 {
+					time.Sleep(700 * time.Millisecond)
+				}
+			}
+		case "mixpaths":
+			for i := 0; i < 45 && time.Now().Before(deadline); i++ {
+				mixShot("127.0.0.1", i)
+			}
 		case "keepalive1":
 			ka("127.0.0.1", 40)
 		case "newconn":
